@@ -18,6 +18,10 @@ def run(m: Model, r: Report, tier: str) -> None:
     r.rule("R3", "stack restoration: after a probe that may have changed the session the stack is recovered before the next probe", floor=4)
     r.rule("R4", "classification: only subFunctionNotSupported means 'not available'; other NRCs are recorded as not entered; positives extend the stack unless already on it", floor=4)
     r.rule("R5", "probe domain is 0x01..0x7F", floor=1)
+    r.rule("R8", "a session change answered busyRepeatRequest on the last attempt is returned as that negative response (recorded as identified but not entered), "
+           "not turned into a timeout", floor=1)
+    from sa.uds_rules import busy_last_attempt
+    busy_last_attempt(m, r, "R8")
     r.rule("R6", "probing is raw: the scanner disables database transitions and ECU.set_session honours that", floor=3)
 
     fn = m.require_function(f"{SCAN}.SessionsScanner.main")
